@@ -18,6 +18,9 @@ import (
 
 	"github.com/osmosis-labs/osmosis/osmomath"
 
+	stakingtypes "github.com/cosmos/cosmos-sdk/x/staking/types"
+
+	"github.com/osmosis-labs/osmosis/v31/app"
 	cltypes "github.com/osmosis-labs/osmosis/v31/x/concentrated-liquidity/types"
 	pmtypes "github.com/osmosis-labs/osmosis/v31/x/poolmanager/types"
 
@@ -32,7 +35,14 @@ type Node struct {
 func genesisNode() *Node {
 	big := "1000000000000000000000"
 	fund := core.Coins("foo", big, "bar", big, "baz", big, "uosmo", big, "eth", big, "usdc", big, "stake", big)
-	env := core.NewEnv(core.GenesisOpts{Balances: map[string]sdk.Coins{"A": fund, "B": fund, "C": fund, "T": fund}, NumValidators: 2})
+	env := core.NewEnv(core.GenesisOpts{Balances: map[string]sdk.Coins{"A": fund, "B": fund, "C": fund, "T": fund}, NumValidators: 2,
+		Mutate: func(a *app.OsmosisApp, gs app.GenesisState) {
+			// superfluid locks must last the staking unbonding time, which must be one of the lockable durations
+			var sg stakingtypes.GenesisState
+			a.AppCodec().MustUnmarshalJSON(gs[stakingtypes.ModuleName], &sg)
+			sg.Params.UnbondingTime = 3 * time.Hour
+			gs[stakingtypes.ModuleName] = a.AppCodec().MustMarshalJSON(&sg)
+		}})
 	a, ctx := env.App, env.Ctx
 	p := cltypes.DefaultParams()
 	p.IsPermissionlessPoolCreationEnabled = true
@@ -117,6 +127,9 @@ func (n *Node) RunBlock(b Block) []Step {
 	ctx, bb, err := safeBegin(n, b.Dt)
 	n.Ctx = ctx
 	steps = append(steps, Step{What: "begin", Result: errStr(err), Events: eventsDigest(bb)})
+	if b.Pre != nil {
+		b.Pre(n)
+	}
 	for _, tx := range b.Txs {
 		steps = append(steps, n.deliverTx(tx))
 	}
@@ -170,12 +183,23 @@ func runAll(n *Node, blocks []Block) [][]Step {
 	return out
 }
 
-func diffSteps(a, b []Step, ignoreState bool) string {
+// diffSteps compares two executions of a block. For the determinism axes everything must be identical.
+// For the export/import axis (imported=true) the statement demands the same transaction results and the
+// same module state; the raw store bytes and the begin/end-block event lists (whose granularity depends
+// on queue layouts that an import legitimately rebuilds, e.g. merged unbonding entries) are not compared
+// there: their effects are compared through the final exports.
+func diffSteps(a, b []Step, imported bool) string {
 	if len(a) != len(b) {
 		return fmt.Sprintf("different number of steps %d vs %d", len(a), len(b))
 	}
 	for i := range a {
-		if ignoreState && a[i].What == "state" {
+		if imported && a[i].What == "state" {
+			continue
+		}
+		if imported && (a[i].What == "begin" || a[i].What == "end") {
+			if a[i].Result != b[i].Result {
+				return fmt.Sprintf("step %d (%s): result %q vs %q", i, a[i].What, clip(a[i].Result), clip(b[i].Result))
+			}
 			continue
 		}
 		if a[i] != b[i] {
@@ -363,12 +387,23 @@ func exportImportAt(f *core.Flags, r *core.Result, sc Script, refSteps [][]Step,
 	ga := a.Export()
 	a.Env.Close()
 
-	b, err := core.ImportNode(g, height, btime)
+	// Import as an operator would (genesis invariant assertion skipped) and run the registered invariants
+	// as a separate, named oracle: a broken invariant is reported by its name and does not hide the
+	// differential comparison that follows.
+	b, err := core.ImportNodeOpts(g, height, btime, true)
 	if err != nil {
 		r.AddViolation(core.Violation{Property: f.Prop, Assertion: "c19.import-succeeds", Signature: fmt.Sprintf("%s|k=%d", sc.Name, k), Detail: err.Error(), Replay: rp})
 		return
 	}
 	defer b.Close()
+	if msg := assertInvariants(b); msg != "" {
+		name := msg
+		if i := strings.Index(msg, " invariant"); i > 0 {
+			name = msg[:i]
+		}
+		r.AddViolation(core.Violation{Property: f.Prop, Assertion: "c19.invariants-hold-after-import", Signature: sc.Name + "|" + strings.TrimSpace(name),
+			Detail: fmt.Sprintf("export after block %d: %s", k, clip(msg)), Replay: rp})
+	}
 	bc, _ := b.Ctx.CacheContext()
 	bn := &Node{Env: b, Ctx: bc.WithExecMode(sdk.ExecModeFinalize)}
 	g2 := bn.Export()
@@ -388,7 +423,7 @@ func exportImportAt(f *core.Flags, r *core.Result, sc Script, refSteps [][]Step,
 		sa := stepsA[i-k-1]
 		r.Transitions += int64(2 * len(sa))
 		if d := diffSteps(sa, sb, true); d != "" {
-			r.AddViolation(core.Violation{Property: f.Prop, Assertion: "c19.imported-node-same-results", Signature: fmt.Sprintf("%s|export after block %d|first divergence in block %d %s", sc.Name, k, i, firstDiffStep(sa, sb)),
+			r.AddViolation(core.Violation{Property: f.Prop, Assertion: "c19.imported-node-same-results", Signature: fmt.Sprintf("%s|export after block %d|first divergence in block %d %s", sc.Name, k, i, firstDiffStepImported(sa, sb)),
 				Detail: fmt.Sprintf("export point after block %d: %s", k, d), Replay: rp})
 			return
 		}
@@ -471,6 +506,18 @@ func prefixOf(k string) string {
 	return k
 }
 
+func firstDiffStepImported(a, b []Step) string {
+	for i := range a {
+		if i < len(b) && a[i].What != "state" && a[i].What != "begin" && a[i].What != "end" && a[i] != b[i] {
+			return fmt.Sprintf("step %d (%s)", i, strings.Fields(a[i].What)[0])
+		}
+		if i < len(b) && (a[i].What == "begin" || a[i].What == "end") && a[i].Result != b[i].Result {
+			return fmt.Sprintf("step %d (%s)", i, a[i].What)
+		}
+	}
+	return "length"
+}
+
 func firstDiffStep(a, b []Step) string {
 	for i := range a {
 		if i < len(b) && a[i].What != "state" && a[i] != b[i] {
@@ -478,4 +525,16 @@ func firstDiffStep(a, b []Step) string {
 		}
 	}
 	return "length"
+}
+
+// assertInvariants runs every registered crisis invariant on the imported node.
+func assertInvariants(e *core.Env) (msg string) {
+	defer func() {
+		if r := recover(); r != nil {
+			msg = strings.TrimSpace(strings.TrimPrefix(fmt.Sprint(r), "invariant broken:"))
+		}
+	}()
+	c, _ := e.Ctx.CacheContext()
+	e.App.CrisisKeeper.AssertInvariants(c)
+	return ""
 }
